@@ -22,7 +22,8 @@ def check(tier="quick", seed=0):
         try:
             d = json.loads(p.stdout)
         except Exception:
-            return {"name": "ground.localsplus", "error": "worker under %s failed: %s" % (h, p.stderr[-300:]), "obligations": [], "violations": []}
+            from ground.common import worker_failed
+            return worker_failed("ground.localsplus", h, p.stderr, repo)
         hosts.append(h)
         n += d["evaluations"]
         for x in d["diffs"]:
